@@ -233,8 +233,9 @@ def updateMessageForChange (f : String) : String × String × String :=
   | some m =>
     let g1 := m.group t 1; let g2 := m.group t 2; let g3 := m.group t 3; let g4 := m.group t 4
     let oldLast := if g2.isEmpty then (match g4 with | '/' :: r => r | r => r) else g4
+    let newLast := if g3.isEmpty then (match g4 with | '/' :: r => r | r => r) else g4
     let old := String.ofList (g1 ++ g2 ++ oldLast)
-    let new := String.ofList (g1 ++ g3 ++ g4)
+    let new := String.ofList (g1 ++ g3 ++ newLast)
     (new, old, new)
   | none => (f, f, f)
 
